@@ -31,7 +31,17 @@ func (*C15) Plan(tier string) orch.Plan {
 }
 
 var c15StdLevels = []int{-4, 0, 4, 8}
-var c15StdName = map[int]string{-4: "debug", 0: "info", 4: "warning", 8: "error"}
+// names of the four standard log/slog levels (for messages) and their namesakes among logg's levels
+var c15StdName = map[int]string{-4: "debug", 0: "info", 4: "warn", 8: "error"}
+var c15Namesake = map[int]int{-4: model.Debug, 0: model.Info, 4: model.Warn, 8: model.Error}
+
+// c15Want is the level name a record of the namesake severity carries in this build of logg
+func c15Want(run *orch.Run, std int) string {
+	if l, ok := c15Namesake[std]; ok {
+		return worldLevelName(run, l)
+	}
+	return ""
+}
 var c15StdSev = map[int]int{-4: model.Debug, 0: model.Info, 4: model.Warn, 8: model.Error}
 
 type c15Gen struct {
@@ -510,7 +520,7 @@ func (p *C15) Check(sc *scen.Scenario, run *orch.Run, env *orch.Env) []orch.Viol
 				if !h.base {
 					how = "derived.Handle"
 				}
-				checkRecord(how, sev, c15StdName[op.Lvl], "h"+op.Tok, h, op.Args, op.T)
+				checkRecord(how, sev, c15Want(run, op.Lvl), "h"+op.Tok, h, op.Args, op.T)
 			} else {
 				// non-standard level: it must not become a terminating severity
 				for _, w := range o.Writes {
@@ -529,7 +539,7 @@ func (p *C15) Check(sc *scen.Scenario, run *orch.Run, env *orch.Env) []orch.Viol
 				if !h.base {
 					how = "derived slog.Logger"
 				}
-				checkRecord(how, sev, c15StdName[op.Lvl], "s"+op.Tok, h, op.Args, nil)
+				checkRecord(how, sev, c15Want(run, op.Lvl), "s"+op.Tok, h, op.Args, nil)
 			}
 		case "bridge_print":
 			S := op.Lvl
@@ -539,7 +549,7 @@ func (p *C15) Check(sc *scen.Scenario, run *orch.Run, env *orch.Env) []orch.Viol
 			if op.Kind == "println" {
 				wantMsg = op.Msg
 			}
-			checkRecord("bridge", S, model.LevelName(S), wantMsg, nil, nil, nil)
+			checkRecord("bridge", S, worldLevelName(run, S), wantMsg, nil, nil, nil)
 			if op.Kind == "write" && admitted(S) == model.Admit {
 				var ret struct {
 					N int `json:"n"`
@@ -556,7 +566,7 @@ func (p *C15) Check(sc *scen.Scenario, run *orch.Run, env *orch.Env) []orch.Viol
 				continue
 			}
 			if sev, std := c15StdSev[op.Lvl]; std {
-				checkRecord("Entry.Log", sev, c15StdName[op.Lvl], "e"+op.Tok, nil, nil, nil)
+				checkRecord("Entry.Log", sev, c15Want(run, op.Lvl), "e"+op.Tok, nil, nil, nil)
 			} else if op.Lvl != 16 && op.Lvl != 17 {
 				for _, w := range o.Writes {
 					if lv, ok := levelField(w.P); ok && (lv == "fatal" || lv == "panic") {
